@@ -45,3 +45,25 @@ from_hex_len!(c17_register_from_hex_decoded_len33, dec33, 33);
 from_hex_len!(c17_register_from_hex_decoded_len79, dec79, 79);
 from_hex_len!(c17_register_from_hex_decoded_len80, dec80, 80);
 from_hex_len!(c17_register_from_hex_decoded_len81, dec81, 81);
+
+/// Text of exactly the accepted length (160 bytes) that is valid UTF-8 but not ASCII: a two-byte character straddles a
+/// byte offset at which a parser working on the *text* would cut it (64 = end of the name, 32, 1). The decoder's answer
+/// stays symbolic (any 80 bytes, or an error); what the parser does with the text itself (split_at, slicing) is executed
+/// on this concrete text. A symbolic character through the real hex::decode did not finish in 25 min.
+macro_rules! from_hex_non_ascii {
+    ($name:ident, $text:expr) => {
+        #[kani::proof]
+        #[kani::unwind(100)]
+        #[kani::stub(hex::decode, dec80)]
+        #[kani::stub(bls::PublicKey::from_bytes, pk_from_bytes_nondet)]
+        #[kani::stub(alloc::fmt::format, crate::stubs::fmt_format)]
+        fn $name() {
+            let r = RegisterAddress::from_hex($text);
+            kani::cover!(r.is_err(), "rejected");
+            core::mem::forget(r);
+        }
+    };
+}
+from_hex_non_ascii!(c17_register_from_hex_non_ascii_across_offset_64, "000000000000000000000000000000000000000000000000000000000000000é00000000000000000000000000000000000000000000000000000000000000000000000000000000000000000000000");
+from_hex_non_ascii!(c17_register_from_hex_non_ascii_across_offset_32, "0000000000000000000000000000000é0000000000000000000000000000000000000000000000000000000000000000000000000000000000000000000000000000000000000000000000000000000");
+from_hex_non_ascii!(c17_register_from_hex_non_ascii_across_offset_1, "é00000000000000000000000000000000000000000000000000000000000000000000000000000000000000000000000000000000000000000000000000000000000000000000000000000000000000");
